@@ -89,6 +89,9 @@ func (t *fnTr) kindOfType(ty types.Type) string {
 		if ty.String() == "io.Reader" {
 			return "reader" // a schedule of Read results, consumed as the function reads (state)
 		}
+		if ty.String() == "io.Writer" {
+			return "writer" // the bytes written so far (state); Write never fails (a bytes.Buffer)
+		}
 	case *types.Map:
 		if kb, ok := u.Key().Underlying().(*types.Basic); ok && kb.Info()&types.IsString != 0 {
 			switch t.kindOfType(u.Elem()) {
@@ -139,6 +142,8 @@ func fnCoqType(k string) string {
 		return "(option err)"
 	case k == "reader":
 		return "(list rev)"
+	case k == "writer":
+		return "str"
 	case k == "byte":
 		return "ascii"
 	case k == "str":
@@ -216,6 +221,7 @@ type fnTr struct {
 	used    map[string]int
 	guards  []string
 	fresh   int
+	pairMemo int // 0 unknown, 1 pair result, 2 not
 	tables  map[types.Object]string
 	externs *[]extern
 	structs map[string]*types.Struct
@@ -1151,11 +1157,16 @@ func (t *fnTr) assigned(list []ast.Stmt) []*lvar {
 				if len(x.Rhs) == 1 {
 					if c, ok := x.Rhs[0].(*ast.CallExpr); ok {
 						if se, ok := c.Fun.(*ast.SelectorExpr); ok && se.Sel.Name == "Read" && len(c.Args) == 1 {
-							if rid, ok := se.X.(*ast.Ident); ok {
-								if rl, ok := t.locals[t.p.info.Uses[rid]]; ok && rl.kind == "reader" {
-									target(c.Args[0], false)
-									add(rl)
+							if rl := t.lvarOf(se.X); rl != nil && rl.kind == "reader" {
+								if bl := t.lvarOf(c.Args[0]); bl != nil {
+									add(bl)
 								}
+								add(rl)
+							}
+						}
+						if se, ok := c.Fun.(*ast.SelectorExpr); ok && se.Sel.Name == "Write" && len(c.Args) == 1 {
+							if wl := t.lvarOf(se.X); wl != nil && wl.kind == "writer" {
+								add(wl)
 							}
 						}
 					}
@@ -1229,7 +1240,33 @@ func tupleType(vs []*lvar) string {
 	return "(" + strings.Join(tys, " * ") + ")"
 }
 
+// pairResult: a (T, error) function one of whose returns gives a non-zero value together with a non-nil error
+// expression: its result is the pair (T * option err) rather than res T.
+func (t *fnTr) pairResult() bool {
+	if t.pairMemo != 0 {
+		return t.pairMemo == 1
+	}
+	t.pairMemo = 2
+	if len(t.resKind) == 2 && t.resKind[1] == "err" && !strings.HasPrefix(t.resKind[0], "ptr:") {
+		ast.Inspect(t.fn.Body, func(n ast.Node) bool {
+			if r, ok := n.(*ast.ReturnStmt); ok && len(r.Results) == 2 {
+				if !t.isZeroExpr(r.Results[0]) && !t.p.info.Types[r.Results[1]].IsNil() {
+					// `return (err == nil && c), err` is handled on its own
+					if be, ok := unparen(r.Results[0]).(*ast.BinaryExpr); !ok || be.Op != token.LAND {
+						t.pairMemo = 1
+					}
+				}
+			}
+			return true
+		})
+	}
+	return t.pairMemo == 1
+}
+
 func (t *fnTr) resultOnly() string {
+	if t.pairResult() {
+		return "(" + fnCoqType(t.resKind[0]) + " * (option err))"
+	}
 	if len(t.resKind) == 2 && t.resKind[1] == "err" && strings.HasPrefix(t.resKind[0], "ptr:") {
 		return "(" + fnCoqType(t.resKind[0]) + " * (option err))" // (*T, error): the value is returned together with the error
 	}
@@ -1339,12 +1376,34 @@ func (t *fnTr) errExpr(e ast.Expr) (string, bool) {
 		if v, ok := t.p.info.Uses[r].(*types.Var); ok && v.Pkg() == t.p.pkg && v.Parent() == t.p.pkg.Scope() && t.kindOfType(v.Type()) == "err" {
 			return "(Some EOther)", true
 		}
+	case *ast.SelectorExpr:
+		switch types.ExprString(r) {
+		case "io.EOF":
+			return "(Some EEOF)", true
+		case "io.ErrNoProgress", "io.ErrUnexpectedEOF":
+			return "(Some EOther)", true
+		}
 	case *ast.CallExpr:
 		if pkg, name, ok := t.pkgCall(r); ok && (pkg+"."+name == "fmt.Errorf" || pkg+"."+name == "errors.New") {
 			return "(Some EOther)", true
 		}
 	}
 	return "", false
+}
+
+// lvarOf: the local an identifier, or a field selection on a struct local / receiver, stands for.
+func (t *fnTr) lvarOf(e ast.Expr) *lvar {
+	switch x := unparen(e).(type) {
+	case *ast.Ident:
+		return t.locals[t.p.info.Uses[x]]
+	case *ast.SelectorExpr:
+		if id, ok := x.X.(*ast.Ident); ok {
+			if lv, ok := t.locals[t.p.info.Uses[id]]; ok && lv.fields != nil {
+				return lv.fields[x.Sel.Name]
+			}
+		}
+	}
+	return nil
 }
 
 // isZeroExpr: nil, "", 0 or false written literally - the zero value returned beside an error.
@@ -1368,6 +1427,22 @@ func (t *fnTr) isZeroExpr(e ast.Expr) bool {
 }
 
 func (t *fnTr) retExpr(x *ast.ReturnStmt) string {
+	if t.pairResult() && len(x.Results) == 2 {
+		mark := len(t.guards)
+		var v string
+		if t.p.info.Types[x.Results[0]].IsNil() {
+			v = fnZero(t.resKind[0])
+		} else if t.resKind[0] == "val" {
+			v = t.boxVal(x.Results[0])
+		} else {
+			v = t.expr(x.Results[0])
+		}
+		e, ok := t.errExpr(x.Results[1])
+		if !ok {
+			t.unsupported(x, "error result of this form")
+		}
+		return t.wrap(mark, "Ret "+t.withState("("+v+", "+e+")"))
+	}
 	// return &local, err   for a (*T, error) result: value and error together
 	if len(t.resKind) == 2 && t.resKind[1] == "err" && strings.HasPrefix(t.resKind[0], "ptr:") && len(x.Results) == 2 {
 		u, ok := x.Results[0].(*ast.UnaryExpr)
@@ -1685,19 +1760,25 @@ func (t *fnTr) assign(x *ast.AssignStmt, next func() string) string {
 		// n, err := rdr.Read(buf) on the io.Reader parameter with a local one-byte buffer
 		if c, isCall := x.Rhs[0].(*ast.CallExpr); isCall && define {
 			if se, ok := c.Fun.(*ast.SelectorExpr); ok && se.Sel.Name == "Read" && len(c.Args) == 1 {
-				if rid, ok := se.X.(*ast.Ident); ok {
-					if rl, ok := t.locals[t.p.info.Uses[rid]]; ok && rl.kind == "reader" {
-						bid, ok := c.Args[0].(*ast.Ident)
-						var bl *lvar
-						if ok {
-							bl = t.locals[t.p.info.Uses[bid]]
-						}
-						if bl == nil || bl.kind != "str" {
-							t.unsupported(x, "Read into something other than a local byte buffer")
-						}
-						va, vb := bind(a, "int"), bind(b, "errv")
-						return "let '(" + va + ", " + vb + ", " + bl.name + ", " + rl.name + ") := go_read " + rl.name + " " + bl.name + " in\n  " + next()
+				if rl := t.lvarOf(se.X); rl != nil && rl.kind == "reader" {
+					bl := t.lvarOf(c.Args[0])
+					if bl == nil || bl.kind != "str" {
+						t.unsupported(x, "Read into something other than a local byte buffer")
 					}
+					va, vb := bind(a, "int"), bind(b, "errv")
+					return "let '(" + va + ", " + vb + ", " + bl.name + ", " + rl.name + ") := go_read " + rl.name + " " + bl.name + " in\n  " + next()
+				}
+			}
+			// _, werr := w.Write(p) on a writer: the bytes are appended, the error is nil (the writer is a bytes.Buffer)
+			if se, ok := c.Fun.(*ast.SelectorExpr); ok && se.Sel.Name == "Write" && len(c.Args) == 1 {
+				if wl := t.lvarOf(se.X); wl != nil && wl.kind == "writer" {
+					if a.Name != "_" {
+						t.unsupported(x, "the count returned by Write is used")
+					}
+					mark := len(t.guards)
+					pv := t.expr(c.Args[0])
+					vb := bind(b, "errv")
+					return t.wrap(mark, "let "+wl.name+" := (app "+wl.name+" "+pv+") in let "+vb+" : (option err) := None in\n  "+next())
 				}
 			}
 		}
@@ -2477,7 +2558,7 @@ func constTable(p *pkgInfo, vs *ast.ValueSpec, i int) (string, bool) {
 
 // the functions translated into Pure_gen.v ("Recv.Method" for methods)
 var pureFuncs = []string{"cast", "escapeChars", "parsePath", "getSubKeyMap", "hasSubKeys", "Map.PathForKeyShortest", "valuesForKeyPath", "hasKey", "hasKeyPath", "getLeafNodes",
-	"Map.ValuesForKey", "Map.oldValuesForPath", "Map.ValuesForPath", "Map.LeafNodes", "getJson", "NewMapJsonReader", "NewMapJsonReaderRaw", "Map.Exists", "Map.ValueForPath", "Map.ValueForKey", "Map.LeafPaths", "Map.LeafValues", "valuesForArray", "Map.PathsForKey"}
+	"Map.ValuesForKey", "Map.oldValuesForPath", "Map.ValuesForPath", "Map.LeafNodes", "getJson", "NewMapJsonReader", "NewMapJsonReaderRaw", "Map.Exists", "Map.ValueForPath", "Map.ValueForKey", "Map.LeafPaths", "Map.LeafValues", "valuesForArray", "Map.PathsForKey", "byteReader.ReadByte", "teeReader.ReadByte"}
 
 func genPure(p *pkgInfo) string {
 	vars, _ := pkgVars(p)
@@ -2628,7 +2709,38 @@ func genPure(p *pkgInfo) string {
 			addParam := func(id *ast.Ident, isRecv bool) {
 				obj := p.info.Defs[id]
 				k := t.kindOfType(obj.Type())
-				if k == "" || k == "tok" || strings.HasPrefix(k, "rec:") {
+				if strings.HasPrefix(k, "rec:") {
+					// a pointer to a struct of the package whose fields are readers, writers and byte buffers (the single-byte
+					// adaptors): one parameter per field, each threaded as state (the callee reads / writes through them)
+					pt, isPtr := obj.Type().(*types.Pointer)
+					var st *types.Struct
+					if isPtr {
+						st, _ = pt.Elem().Underlying().(*types.Struct)
+					}
+					if st == nil || st.NumFields() == 0 {
+						t.unsupported(id, "parameter type "+obj.Type().String())
+					}
+					lv := &lvar{name: "p_" + id.Name, kind: k, fields: map[string]*lvar{}}
+					for i := 0; i < st.NumFields(); i++ {
+						f := st.Field(i)
+						fk := t.kindOfType(f.Type())
+						if fk != "reader" && fk != "writer" && fk != "str" {
+							t.unsupported(id, "parameter type "+obj.Type().String()+" (field "+f.Name()+")")
+						}
+						fl := &lvar{name: "p_" + id.Name + "_" + f.Name(), kind: fk, isState: true}
+						t.used[fl.name] = 1
+						lv.fields[f.Name()] = fl
+						lv.forder = append(lv.forder, f.Name())
+						params += fmt.Sprintf(" (%s : %s)", fl.name, fnCoqType(fk))
+						t.state = append(t.state, fl)
+					}
+					t.locals[obj] = lv
+					if !isRecv {
+						pos++
+					}
+					return
+				}
+				if k == "" || k == "tok" {
 					t.unsupported(id, "parameter type "+obj.Type().String())
 				}
 				if strings.HasPrefix(k, "recs:") {
@@ -2702,13 +2814,24 @@ func genPure(p *pkgInfo) string {
 				}
 			}
 			where := strings.TrimPrefix(p.fset.Position(fn.Pos()).String(), p.dir+"/")
+			// methods of the same name on several receivers are told apart by the receiver type
+			defName := fn.Name.Name
+			nSame := 0
+			for _, n := range pureFuncs {
+				if n == fn.Name.Name || strings.HasSuffix(n, "."+fn.Name.Name) {
+					nSame++
+				}
+			}
+			if nSame > 1 {
+				defName = strings.ReplaceAll(qname, ".", "_")
+			}
 			if t.recurs {
 				// recursion on explicit fuel: running out of fuel is a Crash, excluded by the theorems' fuel hypothesis
 				fmt.Fprintf(&bodies, "(* %s: func %s (recursive: fuel) *)\nFixpoint fn_%s (fuel : nat) (st : gstate)%s {struct fuel} : ctl unit %s :=\n  match fuel with\n  | O => Crash\n  | S fuel_ =>\n  %s\n  end.\n\n",
-					where, qname, fn.Name.Name, params, t.resultType(), body)
+					where, qname, defName, params, t.resultType(), body)
 			} else {
 				fmt.Fprintf(&bodies, "(* %s: func %s *)\nDefinition fn_%s (st : gstate)%s : ctl unit %s :=\n  %s.\n\n",
-					where, qname, fn.Name.Name, params, t.resultType(), body)
+					where, qname, defName, params, t.resultType(), body)
 			}
 		}
 	}
